@@ -23,6 +23,7 @@ import (
 	"strconv"
 	"strings"
 	"sync"
+	"sync/atomic"
 	"time"
 
 	"github.com/blevesearch/bleve/v2"
@@ -61,6 +62,7 @@ type In struct {
 	Layout   sw.Layout `json:"layout"`
 	NIDs     int       `json:"nids"`
 	Sessions []Session `json:"sessions"`
+	Builder  []sw.Op   `json:"builder,omitempty"`  // c14: the index is first made by the offline Builder from these documents
 	Rollback int       `json:"rollback,omitempty"` // c13: after session index Rollback-1, roll back to point #RollbackPick
 	Pick     int       `json:"pick,omitempty"`
 }
@@ -73,6 +75,7 @@ type childSpec struct {
 	TagBase     int64     `json:"tag_base"`
 	First       bool      `json:"first"`
 	ObserveOnly bool      `json:"observe_only,omitempty"`
+	Builder     []sw.Op   `json:"builder,omitempty"`
 }
 
 var points = []string{"introduce", "merge_finish", "persist_intro", "merge_start", "persist_pick", "segfile_written",
@@ -168,7 +171,8 @@ func gen(f vh.Flags, r *vrand.R, emit func(In)) {
 			nids := r.Range(3, 6)
 			var ver int64
 			in := In{Mode: mode, NIDs: nids, Layout: sw.Layout{Config: "scorch-disk", Opts: r.Intn(5), Unsafe: r.Chance(2, 3), Keep: r.Range(0, 2)}}
-			heavy := k%2 == 0
+			builder := k%4 == 3
+			heavy := k%2 == 0 || builder
 			fm := 4
 			if heavy {
 				fm = 2 // merges, persists and purges all the time
@@ -191,6 +195,19 @@ func gen(f vh.Flags, r *vrand.R, emit func(In)) {
 			}
 			as = append(as, Action{Kind: "sleep", US: 10000})
 			in.Sessions = []Session{{Actions: as}, {}}
+			if builder {
+				// the same workload on an index made by the offline Builder
+				for i := 0; i < nids; i++ {
+					if r.Chance(3, 4) {
+						ver++
+						in.Builder = append(in.Builder, sw.Op{Kind: "index", ID: i, Ver: ver})
+					}
+				}
+				if in.Builder == nil {
+					ver++
+					in.Builder = []sw.Op{{Kind: "index", ID: 0, Ver: ver}}
+				}
+			}
 			emit(in)
 		}
 	case "c12":
@@ -243,6 +260,25 @@ func childMain(specJSON string) {
 	if err := json.Unmarshal([]byte(specJSON), &spec); err != nil {
 		fmt.Fprintln(os.Stderr, "child: bad spec:", err)
 		os.Exit(2)
+	}
+	if spec.Builder != nil {
+		// make the index with the offline Builder (segment ids and file names do not coincide there)
+		b, err := bleve.NewBuilder(spec.Path, sw.Mapping(), map[string]interface{}{"buildPathPrefix": filepath.Dir(spec.Path)})
+		if err != nil {
+			fmt.Fprintln(os.Stderr, "child: NewBuilder:", err)
+			os.Exit(12)
+		}
+		for _, o := range spec.Builder {
+			if err := b.Index(sw.DocName(o.ID), sw.DocFor(o.ID, o.Ver)); err != nil {
+				fmt.Fprintln(os.Stderr, "child: builder index:", err)
+				os.Exit(12)
+			}
+		}
+		if err := b.Close(); err != nil {
+			fmt.Fprintln(os.Stderr, "child: builder close:", err)
+			os.Exit(12)
+		}
+		os.Exit(0)
 	}
 	out := bufio.NewWriter(os.Stdout)
 	var mu sync.Mutex
@@ -372,6 +408,7 @@ func childMain(specJSON string) {
 	tg := sw.NewTagger()
 	tg.Seq = spec.TagBase
 	var bg sync.WaitGroup
+	var nReturned, nSubmitted, nCopies int64 // batches of this session returned / submitted so far
 	for _, a := range spec.Session.Actions {
 		switch a.Kind {
 		case "batch":
@@ -388,10 +425,12 @@ func childMain(specJSON string) {
 					}
 				})
 			}
+			atomic.AddInt64(&nSubmitted, 1)
 			if err := idx.Batch(b); err != nil {
 				fmt.Fprintln(os.Stderr, "child: batch:", err)
 				os.Exit(7)
 			}
+			atomic.AddInt64(&nReturned, 1)
 			if !spec.Layout.Unsafe {
 				note(sw.Note("ack", uint64(seq)))
 			}
@@ -409,12 +448,16 @@ func childMain(specJSON string) {
 			copyWaiters = append(copyWaiters, started)
 			mu.Unlock()
 			us := a.US
+			ci := uint64(nCopies)
+			nCopies++
+			note(sw.Note("copy_begin", ci, uint64(atomic.LoadInt64(&nReturned))))
 			go func() {
 				defer bg.Done()
 				if err := idx.(bleve.IndexCopyable).CopyTo(slowDir{bleve.FileSystemDirectory(dest), us}); err != nil {
 					fmt.Fprintln(os.Stderr, "child: CopyTo:", err)
 					os.Exit(11)
 				}
+				note(sw.Note("copy_done", ci, uint64(atomic.LoadInt64(&nSubmitted))))
 			}()
 			select {
 			case <-started:
@@ -650,6 +693,9 @@ func exec_(in In) vh.Result {
 	var copyEpochs []uint64
 	var copyDests []string
 	rolledBack := false
+	if in.Builder != nil {
+		return execBuilder(in, dir, path)
+	}
 	for si, s := range in.Sessions {
 		spec := childSpec{Path: path, Layout: in.Layout, NIDs: in.NIDs, Session: s, TagBase: tagBase, First: si == 0}
 		mirrorTags(tg, s)
@@ -778,6 +824,93 @@ func exec_(in In) vh.Result {
 	}
 	return vh.Result{Term: cf.App("CDisk", cf.List(terms)), Nontrivial: nontrivial, Hist: hist, Direct: direct, Class: class, Traces: 1,
 		Key: fmt.Sprintf("%d/%d/%d", len(terms), stats["commit"], stats["merge_finish"])}
+}
+
+// execBuilder: the index is made by the offline Builder, then opened and written to while online
+// copies run.  The trace model starts from an empty index and cannot follow this one, so the run is
+// judged at the level of the statement (Scorch/DiskCorr.v check_prefix): every copy is the replay of
+// a whole-batch prefix no older than what had returned when it began, the source keeps everything.
+func execBuilder(in In, dir, path string) vh.Result {
+	_, code, stderr, err := runChild(childSpec{Path: path, Layout: in.Layout, NIDs: in.NIDs, Builder: in.Builder})
+	if err != nil || code != 0 {
+		return vh.Result{Direct: &vh.Direct{Kind: "child-failed", Detail: fmt.Sprintf("builder session exit %d %v: %s", code, err, lastLines(stderr, 8))}}
+	}
+	opsTerm := func(ops []sw.Op) cf.T {
+		d, _ := sw.OpsTerms(ops)
+		return cf.List(d)
+	}
+	batches := []cf.T{opsTerm(in.Builder)}
+	s := in.Sessions[0]
+	for _, a := range s.Actions {
+		if a.Kind == "batch" {
+			batches = append(batches, opsTerm(a.Ops))
+		}
+	}
+	evs, code, stderr, err := runChild(childSpec{Path: path, Layout: in.Layout, NIDs: in.NIDs, Session: s})
+	if err != nil {
+		return vh.Result{Direct: &vh.Direct{Kind: "error", Detail: err.Error()}}
+	}
+	switch code {
+	case 0:
+	case 4:
+		return vh.Result{Direct: &vh.Direct{Kind: "reopen-failed", Detail: "an index made by the Builder could not be opened: " + lastLines(stderr, 6)}}
+	case 11:
+		return vh.Result{Direct: &vh.Direct{Kind: "copy-failed", Detail: "CopyTo failed on an index made by the Builder while it was being written: " + lastLines(stderr, 6)}}
+	default:
+		return vh.Result{Direct: &vh.Direct{Kind: "child-failed", Detail: fmt.Sprintf("exit %d: %s", code, lastLines(stderr, 12))}}
+	}
+	begin, done := map[uint64]uint64{}, map[uint64]uint64{}
+	for _, e := range evs {
+		if e.Kind == "note" && e.Name == "copy_begin" {
+			begin[e.Args[0]] = e.Args[1]
+		}
+		if e.Kind == "note" && e.Name == "copy_done" {
+			done[e.Args[0]] = e.Args[1]
+		}
+	}
+	docsTerm := func(args []uint64) cf.T {
+		var ds []cf.T
+		for i, a := range args {
+			if a == 0 {
+				ds = append(ds, cf.Pair(cf.Int(i), cf.None))
+			} else {
+				ds = append(ds, cf.Pair(cf.Int(i), cf.Some(cf.Z(int64(a)-1))))
+			}
+		}
+		return cf.List(ds)
+	}
+	observe := func(p string) ([]uint64, *vh.Direct) {
+		evs, code, stderr, err := runChild(childSpec{Path: p, Layout: in.Layout, NIDs: in.NIDs, ObserveOnly: true})
+		if err != nil || code != 0 {
+			return nil, &vh.Direct{Kind: "copy-unusable", Detail: fmt.Sprintf("%s could not be opened / read (exit %d, %v): %s", filepath.Base(p), code, err, lastLines(stderr, 6))}
+		}
+		for _, e := range evs {
+			if e.Kind == "note" && e.Name == "observe" {
+				return e.Args, nil
+			}
+		}
+		return nil, &vh.Direct{Kind: "error", Detail: "no observation from " + p}
+	}
+	var copies []cf.T
+	ci := uint64(0)
+	for _, a := range s.Actions {
+		if a.Kind != "copy" {
+			continue
+		}
+		args, d := observe(filepath.Join(dir, a.Dest))
+		if d != nil {
+			return vh.Result{Direct: d}
+		}
+		// +1: the Builder's documents are batch number one of the history
+		copies = append(copies, cf.Tuple(cf.Nat(int(begin[ci])+1), cf.Nat(int(done[ci])+1), docsTerm(args)))
+		ci++
+	}
+	final, d := observe(path)
+	if d != nil {
+		return vh.Result{Direct: d}
+	}
+	return vh.Result{Term: cf.App("CPrefix", cf.List(batches), cf.List(copies), docsTerm(final)), Nontrivial: len(copies) > 0,
+		Hist: []string{"builder-made-index", fmt.Sprintf("builder:copies=%d", len(copies))}, Key: fmt.Sprintf("builder/%d", len(batches))}
 }
 
 func describePrev(in In, si int) string {
